@@ -25,6 +25,7 @@ ASSUMPTIONS = [
     "multiprocessing.Queue.empty() is exact (feeder-thread lag of the real queue is outside)",
     "environment events happen at tick boundaries (sleep), for slow exits inside a bounded join, and (early cases) once right after a replacement was started",
     "signals are delivered through the handlers the manager registered",
+    "a process the manager sent SIGTERM (terminate()) without waiting for it exits on its own before the next tick",
 ]
 TRUSTED = ["fake Process/Queue/Event/os/signal in vt/props/_pm.py", "z3 5.1", "vt.sym explorer"]
 REQUIRED_COVERS = ["death_replaced", "reload_all", "shutdown", "budget_exit", "two_deaths_same_tick"]
